@@ -6,7 +6,7 @@ from ..core import Verdict
 from ..refs import expr_ref as E
 
 ID = "C02"
-RULE = ("Histories of solve() calls on three long-lived instances (default AtomBase; custom name-lookup atom whose "
+RULE = ("Histories of solve() calls on three long-lived instances (default AtomBase; an accumulating atom whose + extends its left operand in place; custom name-lookup atom whose "
         "constructor raises on 'boom' with the operator subset par/mul/truediv/add; string-concatenating atom with a "
         "custom step order as in the docs). Each call draws a valid expression of that configuration or one built to "
         "fail at a chosen token index k (unknown atom / raising atom constructor as the k-th atom, parenthesis left "
@@ -86,7 +86,23 @@ def string_expr(draw):
     return {"cfg": "string", "text": text, "fail": fail}
 
 
-call = st.one_of(default_expr(), default_expr(), lookup_expr(), string_expr())
+@st.composite
+def inplace_expr(draw):
+    names = ["a", "b", "c", "a", "b", "1 m", "50 cm"]
+    n = draw(st.integers(1, 4))
+    parts = [draw(st.sampled_from(names)) for _ in range(n)]
+    text = " + ".join(parts)
+    if n >= 2 and draw(st.booleans()):
+        text = "(" + " + ".join(parts[:2]) + ")" + "".join(" + " + x for x in parts[2:])
+    fail = draw(st.sampled_from([None, None, None, "open", "operand"]))
+    if fail == "open":
+        text += " + (" + draw(st.sampled_from(names))
+    elif fail == "operand":
+        text += " +"
+    return {"cfg": "inplace", "text": text, "fail": fail}
+
+
+call = st.one_of(default_expr(), default_expr(), lookup_expr(), string_expr(), inplace_expr())
 
 
 @st.composite
@@ -131,6 +147,18 @@ def make(cfg):
         ops = {"par": OperatorPar, "mul": OperatorMul, "truediv": OperatorTruediv, "add": OperatorAdd}
         return ExpressionSolver(Atom, ops)
 
+    if cfg == "inplace":
+        # a legal custom atom whose operator accumulates into the left operand and returns it
+        class Bag(AtomBase):
+            def __init__(self, value):
+                self.value = [str(value).strip()]
+
+            def __add__(self, other):
+                self.value.extend(other.value)
+                return self
+        return ExpressionSolver(Bag, {"par": OperatorPar, "add": OperatorAdd},
+                                [dict(operators=["par"], otype=Otype.ARGS), dict(operators=["add"], otype=Otype.BINARY)])
+
     class AtomCustom(AtomBase):
         def __init__(self, value):
             self.value = str(value)
@@ -154,7 +182,8 @@ def outcome(solver, text):
         return ("raise", type(e).__name__)
     if r is None:
         return ("none", None)
-    return ("value", getattr(r, "value", repr(r)))
+    val = getattr(r, "value", repr(r))
+    return ("value", list(val) if isinstance(val, list) else val)
 
 
 def same(a, b):
@@ -163,7 +192,7 @@ def same(a, b):
     if a[0] != "value":
         return a[1] == b[1]
     x, y = a[1], b[1]
-    if isinstance(x, str) or isinstance(y, str):
+    if isinstance(x, (str, list)) or isinstance(y, (str, list)):
         return x == y
     try:
         if x != x and y != y:
